@@ -90,11 +90,12 @@ fn c02(cx: &mut Ctx<'_, '_>) {
         let sev = |p: usize| word.get(p).and_then(|r| r.is_sc());
         let errs: std::cell::RefCell<Vec<(String, String)>> = std::cell::RefCell::new(Vec::new());
         let fail = |sig: &str, msg: String| errs.borrow_mut().push((sig.to_owned(), msg));
-        // ... but they are events of the attempt: none before its Started, none after its Finished
-        if let Some(l) = a.evs.iter().map(|&i| an.ev(i)).find(|r| {
-            matches!(r.is_sc(), Some(ScEv::Log(_))) && (a.started.is_none_or(|s| r.idx < s) || a.finished.is_some_and(|f| r.idx > f))
-        }) {
-            fail("log-outside-attempt", format!("{} lies outside the attempt's Started..Finished ({:?}..{:?})", l.short(), a.started, a.finished));
+        // ... but they are events of the attempt, and the statement is explicit about the end:
+        // "Finished, with no event of that attempt after it". (A line logged outside of any scenario
+        // span before the first batch starts is handed to that batch ahead of its Started events;
+        // the statement does not speak about Log events there, so that is not judged.)
+        if let Some(l) = a.evs.iter().map(|&i| an.ev(i)).find(|r| matches!(r.is_sc(), Some(ScEv::Log(_))) && a.finished.is_some_and(|f| r.idx > f)) {
+            fail("log-after-finished", format!("{} comes after the attempt's Finished (#{:?})", l.short(), a.finished));
         }
         let mut p = 0;
         if !matches!(sev(p), Some(ScEv::Started)) {
